@@ -120,6 +120,7 @@ def check(ctx):
     check_columns_by_name(ctx)
     check_patch_restricted(ctx)
     check_deepest_first(ctx)
+    check_ancestors_nearest_first(ctx)
     check_lists_consulted_follow_tree(ctx)
     # under flatten the genes used (and reported) are the union of every
     # parent's list (shared with C17)
@@ -982,3 +983,111 @@ def check_query_names_as_in_file(ctx, rule='R-PROV/query-names-as-in-file'):
     if n == 0:
         raise AnalysisError('_get_query_gene_names: no feasible return '
                             'under map_to_ensembl=False')
+
+
+def check_ancestors_nearest_first(ctx, rule='R-PROV/ancestors-nearest-first'):
+    """a parent short of markers is completed from the lists of its
+    ancestors, *nearest first*, stopping when the minimum is reached.  The
+    patching loop of validate_marker_lookup therefore walks the ancestor
+    levels from the deepest upwards: its iterable is the reversed
+    hierarchy (a reversed copy, `[::-1]`, `reversed(..)`), or -- when it
+    walks the table `taxonomy_tree.parents(..)` returns -- that table is
+    handed out as it was filled, by a loop that climbs from the node
+    (descending level index), with no re-keying in hierarchy order."""
+    db = ctx.db
+    fi = db.fn('type_assignment.marker_cache_v2:validate_marker_lookup')
+    ctx.touch(fi)
+    cfg = cfg_of(fi)
+    rd = rd_of(fi)
+    ex = Expander(fi)
+    loops = []
+    for lp in ast.walk(fi.node):
+        if isinstance(lp, ast.For) and any(
+                isinstance(c, ast.Call) and getattr(
+                    c.func, 'attr', None) == 'union' and any(
+                        isinstance(x, ast.Subscript) and isinstance(
+                            x.value, ast.Name)
+                        and x.value.id == 'marker_lookup'
+                        for x in ast.walk(c))
+                for c in ast.walk(lp)) and any(
+                    isinstance(b, ast.Break) for b in ast.walk(lp)):
+            # innermost such loop
+            if not any(isinstance(x, ast.For) and x is not lp and any(
+                    isinstance(b, ast.Break) for b in ast.walk(x))
+                    for x in ast.walk(lp)):
+                loops.append(lp)
+    if not loops:
+        raise AnalysisError('validate_marker_lookup: the loop that adds '
+                            'ancestor lists was not found')
+    for k, lp in enumerate(loops):
+        ns = [x for x in cfg.nodes_of(lp) if x.kind == 'for'
+              and x.id in rd.live]
+        if not ns:
+            continue
+        t = ex.expand(lp.iter, ns[0].id)
+        is_rev = False
+        # reversed copy of the hierarchy: name mutated by .reverse(), a
+        # [::-1] slice or reversed()
+        if isinstance(lp.iter, ast.Name):
+            for (mn, astn, how) in rd.mutations(lp.iter.id):
+                if how == 'reverse' or (isinstance(astn, ast.Call)
+                                        and getattr(astn.func, 'attr',
+                                                    None) == 'reverse'):
+                    is_rev = True
+        for x in T.subterms(t):
+            if isinstance(x, tuple) and x and x[0] == 'call' \
+                    and T.call_name(x) == 'reversed':
+                is_rev = True
+            if isinstance(x, tuple) and x and x[0] == 'slice' and x[3] in (
+                    ('unop', 'USub', ('const', '1')), ('const', '-1')):
+                is_rev = True
+        from_hier = any(x == ('const', "'hierarchy'") or (
+            isinstance(x, tuple) and x and x[0] == 'attr'
+            and x[2] == 'hierarchy') for x in T.subterms(t))
+        from_parents = any(isinstance(x, tuple) and x and x[0] == 'call'
+                           and T.call_name(x) == 'parents'
+                           for x in T.subterms(t))
+        ok = False
+        why = f'it walks {fmt_term(t)[:60]}'
+        if from_hier and is_rev and not from_parents:
+            ok = True
+        elif from_parents:
+            # the table as parents() fills it
+            pf = db.fn('taxonomy.taxonomy_tree:TaxonomyTree.parents')
+            ctx.touch(pf)
+            pcfg = cfg_of(pf)
+            prd = rd_of(pf)
+            rets = [r for r in pcfg.nodes if r.kind == 'return'
+                    and r.id in prd.live]
+            as_filled = all(isinstance(r.ast.value, ast.Name)
+                            for r in rets)
+            climbing = False
+            for l2 in ast.walk(pf.node):
+                if isinstance(l2, ast.For) and isinstance(
+                        l2.iter, ast.Call) and getattr(
+                            l2.iter.func, 'id', None) == 'range' \
+                        and len(l2.iter.args) == 3:
+                    st = l2.iter.args[2]
+                    neg = isinstance(st, ast.UnaryOp) and isinstance(
+                        st.op, ast.USub)
+                    fills = any(isinstance(a, ast.Assign) and isinstance(
+                        a.targets[0], ast.Subscript) and rets
+                        and isinstance(rets[0].ast.value, ast.Name)
+                        and isinstance(a.targets[0].value, ast.Name)
+                        and a.targets[0].value.id == rets[0].ast.value.id
+                        for a in ast.walk(l2))
+                    if neg and fills:
+                        climbing = True
+            ok = as_filled and climbing
+            why = ('it walks the table of taxonomy_tree.parents(), which '
+                   + ('is handed out as filled while climbing from the '
+                      'node' if ok else
+                      'is not handed out in the order it was filled while '
+                      'climbing from the node (re-keyed, or filled top '
+                      'down)'))
+        ctx.ob(rule, f'validate_marker_lookup:loop#{k}', fi.loc(lp), ok,
+               'ancestor lists are added nearest first' if ok else
+               f'the loop that adds ancestor lists does not go nearest '
+               f'first: {why}; a parent short of markers is completed '
+               'from a far ancestor while a nearer one would have '
+               'sufficed')
